@@ -790,8 +790,49 @@ def gen_shared_template_case(rng):
                 box_union=None, used=['shared-href-template', '%d users' % nusers], scale=s, angle=0, empty_g=False)
 
 
+def gen_shared_function_case(rng):
+    """round 5: 2-3 elements with DIFFERENT bounding boxes, each in its own 80x80 cell, that carry the textually SAME filter value: identity CSS filter
+    functions (region = -10% .. 120% of the element's OWN box) or one url() filter with objectBoundingBox units.  Expectations come from the source
+    document: every element stays inside the region derived from ITS box, and the identity functions leave every element unchanged (whole canvas compared)."""
+    nusers = 2 + rng.below(2)
+    cells = rng.sample(CELLS4, nusers)
+    css = rng.below(3) != 0
+    defs = ''
+    if css:
+        fattr = " ".join(rng.choice(CSS_IDENT_FNS) for _ in range(1 + rng.below(2)))
+    else:
+        fattr = 'url(#fo)'
+        defs = ('<filter id="fo"%s><feFlood flood-color="%s" flood-opacity="0.5" result="bg"/><feMerge><feMergeNode in="bg"/><feMergeNode in="SourceGraphic"/></feMerge></filter>'
+                % (rng.choice(['', ' filterUnits="objectBoundingBox"', ' primitiveUnits="userSpaceOnUse"']), rng.choice(COLORS)))
+    s_ = rng.choice([1, 1, 1.5, 2])
+    size = int(math.ceil(160 * s_))
+    root = tuple(f32_of(v) for v in (s_, 0.0, 0.0, s_, 0.0, 0.0))
+    body_f, body_p, boxes = '', '', []
+    for u in range(nusers):
+        x, y, w, h = 30 + rng.below(50), 30 + rng.below(50), 20 + 2 * rng.below(16), 20 + 2 * rng.below(16)
+        col = rng.choice(COLORS[:7])
+        k = rng.below(3)
+        if k == 0:
+            shape = '<rect x="%d" y="%d" width="%d" height="%d" fill="%s"%%s/>' % (x, y, w, h, col)
+        elif k == 1:
+            shape = '<ellipse cx="%d" cy="%d" rx="%d" ry="%d" fill="%s"%%s/>' % (x + w // 2, y + h // 2, w // 2, h // 2, col)
+        else:
+            shape = '<path d="M %d %d h %d v %d h %d Z" fill="%s"%%s/>' % (x, y, w, h, -w, col)
+        tr = ' transform="translate(%d %d) scale(0.5)"' % cells[u]
+        gts = (0.5, 0.0, 0.0, 0.5, float(cells[u][0]), float(cells[u][1]))
+        if rng.below(2):
+            body_f += '<g%s>%s</g>' % (tr, shape % (' filter="%s"' % fattr))
+        else:
+            body_f += '<g filter="%s"%s>%s</g>' % (fattr, tr, shape % '')
+        body_p += '<g%s>%s</g>' % (tr, shape % '')
+        boxes.append(hull_of([(x - 0.1 * w, y - 0.1 * h, x + 1.1 * w, y + 1.1 * h)], mat_mul(root, gts)))
+    head = '<svg %s width="160" height="160"><defs>%s</defs>' % (NS, defs)
+    return dict(mode='identity-shared-fn' if css else 'shared-obb', doc=head + body_f + '</svg>', plain=head + body_p + '</svg>', ts=root, size=size, box=boxes[0],
+                boxes=boxes, box_union=None, used=['same-filter-value', fattr, '%d users' % nusers], scale=s_, angle=0, empty_g=False, cmp_all=css)
+
+
 def is_ident(c):
-    return c['mode'] in ('identity', 'identity-cut', 'identity-css')
+    return c['mode'] in ('identity', 'identity-cut', 'identity-css', 'identity-shared-fn')
 
 
 def sys_payload(c, with_plain):
@@ -804,6 +845,8 @@ def sys_payload(c, with_plain):
         # where the region cuts the content, tiny-skia clips the paths at the layer edge and re-distributes anti-aliasing
         # coverage in the two pixel rows / columns next to the edge: compare two pixels inside the region hull only
         cmpbox = "%d,%d,%d,%d" % (c['box'][0] + 3, c['box'][1] + 3, c['box'][2] - 3, c['box'][3] - 3)
+    if c.get('cmp_all'):
+        cmpbox = "0,0,%d,%d" % (c['size'], c['size'])
     return "-\t%s\t%s\t%s\t%d\t%d\t%s\t%s" % (c['doc'], c['plain'] if with_plain else '-', ts, c['size'], c['size'], box, cmpbox)
 
 
@@ -933,6 +976,7 @@ def run(ctx):
     cases += [gen_sys_case(rng, 'identity-cut') for _ in range(n_ident // 3)]
     cases += [gen_sys_case(rng, 'identity-css') for _ in range(n_ident // 3)]
     cases += [gen_shared_template_case(rng) for _ in range(n_list)]
+    cases += [gen_shared_function_case(rng) for _ in range(n_list)]
     cases += [gen_sys_case(rng, 'list') for _ in range(n_list)]
     cases += [gen_sys_case(rng, 'css') for _ in range(n_css)]
     pool = cf.ThreadPoolExecutor(max_workers=2)
